@@ -32,6 +32,7 @@ from numpy import heaviside
 from numpy import max as np_max
 from numpy import multiply
 from numpy import ndarray
+from numpy import ones_like
 from numpy import sum as np_sum
 from numpy import zeros
 
@@ -442,6 +443,37 @@ def compute_max_agg_jac(
     i_max = np_argmax(orig_val)
 
     return atleast_2d(orig_jac)[i_max, :]
+
+
+def compute_partial_max_agg_jac(
+    orig_val: ndarray,
+    indices: Sequence[int] | None = None,
+    scale: float | ndarray = 1.0,
+) -> ndarray:
+    """Compute the Jacobian of max function with respect to constraints functions.
+
+    The maximum function is not differentiable
+    when the maximum is reached by several constraints;
+    the derivative with respect to the first of them is then returned.
+
+    Args:
+        orig_val: The original constraint values.
+        indices: The indices to generate a subset of the outputs to aggregate.
+            If ``None``, aggregate all the outputs.
+        scale: The scaling factor for multiplying the constraints.
+
+    Returns:
+        The Jacobian of max function with respect to constraint functions.
+    """
+    full_size = orig_val.size
+    if indices is not None:
+        orig_val = orig_val[indices]
+
+    scaled_val = orig_val * scale
+    i_max = np_argmax(scaled_val)
+    jac = zeros((1, scaled_val.size), dtype=scaled_val.dtype)
+    jac[0, i_max] = (scale * ones_like(orig_val))[i_max]
+    return __filter_jac(jac, full_size, indices)
 
 
 def compute_sum_positive_square_agg(
